@@ -160,7 +160,7 @@ def run(idx, rep, tier):
                    detail="" if whole else "single-part", locs=[idx.loc(init.module, sup[0])])
     rep.floor("overload", 9)
     rep.floor("rewrite-rule", 18)
-    rep.floor("shape-validation", 4)
+    rep.floor("shape-validation", 6)
     rep.floor("composite-metadata", 5)
     rep.explanation = ("TERM evaluation of every Python operator overload of LinearOperator and every dot/add/mul/kron/kronsum rule against the matrix expression it stands "
                        "for (factor order kept for products/Kronecker, multiset for sums, scalar payload arithmetic, diagonal-kron fusion in row-major order); structural "
@@ -355,6 +355,36 @@ def shape_validation(idx, rep):
                 elif ".shape" in "".join(pair):
                     why = f"`{ast.unparse(cmp_)}` does not compare the contracted dimensions {sorted(want)}"
         rep.decide(ok, "shape-validation", f"LinearOperator.{name}", why, detail="" if ok else "contracted", locs=[idx.loc(m.module, m.node)])
+        if not ok:
+            continue
+        # the check must be passed on the way to the operator @ operator exit as well: the rules of `dot` that drop an operand
+        # (identity, ...) build no Product and therefore validate nothing themselves
+        def is_check(st_):
+            t_ = st_.test if isinstance(st_, ast.Assert) else (st_.test if isinstance(st_, ast.If) and st_.body and isinstance(st_.body[0], ast.Raise) else None)
+            return t_ is not None and any(isinstance(x, ast.Compare) and len(x.ops) == 1
+                                          and {norm_idx(ast.unparse(x.left)), norm_idx(ast.unparse(x.comparators[0]))} in (want, {f"{p}.shape[1]", "self.shape[0]"})
+                                          for x in ast.walk(t_))
+        op_rets = [r for r in df.returns(m.node) if r.value is not None
+                   and in_positive_branch(r, m.node, lambda t: "isinstance" in t and "LinearOperator" in t)]
+        for r in op_rets:
+            real = getattr(r, "_origin", r)
+            if any(is_check(st_) for st_ in df.statements_before(real, m.node)):
+                rep.proved("shape-validation", f"LinearOperator.{name}:operator-operand", "the contracted-dimension check is passed before the operands are handed to dot()",
+                           locs=[idx.loc(m.module, real)])
+                continue
+            unvalidated = []
+            for rule in [x for x in idx.rules.get("dot", []) if x.kind == "rule"]:
+                for rr in df.returns(rule.func.node):
+                    v = rr.value
+                    if v is None:
+                        continue
+                    tgt = idx.resolve_expr(rule.func.module, v.func, rule.func) if isinstance(v, ast.Call) else None
+                    if not (tgt is not None and tgt.kind == "class" and tgt.val.name == "Product"):
+                        unvalidated.append(f"{rule.role} returns `{ast.unparse(v)[:40]}`")
+            rep.decide(False if unvalidated else True, "shape-validation", f"LinearOperator.{name}:operator-operand",
+                       ("operator operands reach dot() without the contracted-dimension check, and " + "; ".join(unvalidated[:3]) + " -- no Product is built, nothing validates the shapes")
+                       if unvalidated else "every rule of dot() builds a Product, whose constructor validates the shapes",
+                       detail="" if not unvalidated else "unchecked", locs=[idx.loc(m.module, real)])
 
 
 def whole_through_helpers(idx, fi, expr, va, asg, depth=0):
